@@ -109,6 +109,12 @@ def run_family(ctx, props):
                         continue
                     mism_total += 1
                     prop, key = classify(m)
+                    if slowpost and prop not in props:
+                        # with a slow SrvReqRespond any deviation means that the reply left before the request's effects
+                        # were in place: the table does not follow the history (C04) and effects are not visible to a
+                        # request sent after the reply (C05)
+                        prop = sorted(props)[0]
+                        key = "%s:effects-not-in-place-at-reply:%s" % (prop.lower(), key.split(":", 1)[1])
                     if prop in props:
                         ctx.violation(key, "history %s, request %s: expected %s, observed %s" % (m.get("case"), m.get("act"), m.get("expected"), m.get("got")),
                                       {"engine": "TestFidRef", "fidcfg": fc, "behaviour": case_of(bpath, m.get("case")), "line": m.get("line")})
